@@ -16,8 +16,15 @@ def declare_fs(E):
     E.contract("File.__exit__", argnames=["self", "a", "b", "c"], returns="none")
     E.contract("File.truncate", argnames=["self", "n"], returns="int", requires=["n >= 0"],
                ghost={"fs_content": TRUNC}, raises={"OSError": "True"})
+    # the file's permission bits (all twelve: rwx for user/group/other plus setuid, setgid, sticky) as a ghost; os.stat
+    # reports them, os.chmod sets them
+    E.declare_ghost(fs_mode="int")
+    E.opaque_attrs = dict(getattr(E, "opaque_attrs", {}), StatResult={"st_mode": "nat", "st_size": "nat"})
+    E.contract("os.stat", argnames=["path"], returns="opaque:StatResult",
+               ensures=["result.st_mode % 4096 == ghost('fs_mode')"], raises={"OSError": "True"})
     E.contract("os.chmod", argnames=["path", "mode"], returns="none",
-               ghost={"chmod_mode": "mode", "chmod_path": "path", "chmod_calls": "ghost('chmod_calls') + 1"}, raises={"OSError": "True"})
+               ghost={"chmod_mode": "mode", "chmod_path": "path", "chmod_calls": "ghost('chmod_calls') + 1", "fs_mode": "mode % 4096"},
+               raises={"OSError": "True"})
     E.contract("os.chown", argnames=["path", "uid", "gid"], returns="none",
                ghost={"chown_uid": "uid", "chown_gid": "gid", "chown_path": "path", "chown_calls": "ghost('chown_calls') + 1"},
                raises={"OSError": "True"})
@@ -33,14 +40,18 @@ def declare_c31(E):
         "st_atime": "u32", "st_mtime": "u32"})
     OLD = "old(ghost('fs_content'))"
     E.contract(S + "set_file_attr", params={"filename": "str", "attr": "obj:SFTPAttributes"},
+               requires={"mode_bits": "0 <= ghost('fs_mode') and ghost('fs_mode') < 4096"},
                ensures={
                    "truncate_keeps_leading_bytes_and_zero_extends":
                        "implies(attr._flags & 1 != 0, ghost('fs_content') == (%s[0:attr.st_size] if attr.st_size <= len(%s)"
                        " else %s + bytes(attr.st_size - len(%s))) and ghost('opened_path') == filename)" % (OLD, OLD, OLD, OLD),
                    "content_untouched_without_size_flag": "implies(attr._flags & 1 == 0, ghost('fs_content') == %s)" % OLD,
-                   "chmod_iff_permissions_flag":
-                       "(ghost('chmod_calls') == old(ghost('chmod_calls')) + (1 if attr._flags & 4 != 0 else 0))"
-                       " and implies(attr._flags & 4 != 0, ghost('chmod_mode') == attr.st_mode and ghost('chmod_path') == filename)",
+                   # stated over the file's resulting mode, not over the call: leaving out a chmod that would change nothing
+                   # is fine, leaving out one that would change only setuid / setgid / sticky is not
+                   "all_twelve_permission_bits_are_the_requested_ones_iff_permissions_flag":
+                       "(ghost('fs_mode') == (attr.st_mode % 4096 if attr._flags & 4 != 0 else old(ghost('fs_mode'))))"
+                       " and implies(ghost('chmod_calls') > old(ghost('chmod_calls')), ghost('chmod_mode') == attr.st_mode"
+                       " and ghost('chmod_path') == filename and attr._flags & 4 != 0)",
                    "chown_iff_uidgid_flag":
                        "(ghost('chown_calls') == old(ghost('chown_calls')) + (1 if attr._flags & 2 != 0 else 0))"
                        " and implies(attr._flags & 2 != 0, ghost('chown_uid') == attr.st_uid and ghost('chown_gid') == attr.st_gid"
